@@ -94,6 +94,22 @@ def shrink(plan: dict):
             yield p
 
 
+def _meta_names(w: world.World) -> set:
+    return {p.rsplit("/", 1)[-1] for p in w.view().list("metadata") if p.endswith(".metadata.json")}
+
+
+def _commit_flips(flips: list, before: set) -> list:
+    """A commit points the table at a metadata file that did not exist before the operation began; a pointer write
+    naming a file that was already there is a RESTORE of a lost pointer (no commit), whoever performs it."""
+    out = []
+    for f in flips:
+        pn = ir.parse_hint(f["new"]) if f["new"] is not None else None
+        if pn is not None and pn[1] in before:
+            continue
+        out.append(f)
+    return out
+
+
 def _write_pointer(w: world.World, content: Optional[bytes], t: float) -> None:
     if w.backend == "local":
         p = os.path.join(w.root, ir.HINT)
@@ -271,11 +287,13 @@ def execute(plan: dict, scratch: str, replay: Optional[dict] = None) -> dict:
     def do_append(t, tag):
         rows = world.mkrows(tag, 2)
         nfl = len(w2.flips)
+        before = _meta_names(w2)
         t.append_records(rows)
-        if len(w2.flips) != nfl + 1:
-            bad("P.append_flips", f"append after pointer damage produced {len(w2.flips) - nfl} flips")
+        cfl = _commit_flips(w2.flips[nfl:], before)
+        if len(cfl) != 1:
+            bad("P.append_flips", f"append after pointer damage produced {len(cfl)} commit flips")
             return False
-        fl = w2.flips[-1]
+        fl = cfl[-1]
         pn = ir.parse_hint(fl["new"])
         N = w2.reader.state_of(w2.view(), pn[1], pn[0])
         probs = [p for p in model.refine(expect["base"], N, {"appends": [rows]}) if p[0] not in ("R.mlog",)]
@@ -339,11 +357,13 @@ def execute(plan: dict, scratch: str, replay: Optional[dict] = None) -> dict:
                         t = datashard.load_table(w2.table_path)
                     rows = world.mkrows("post", 2)
                     nfl = len(w2.flips)
+                    before = _meta_names(w2)
                     t.append_records(rows)
-                    if len(w2.flips) != nfl + 1:
-                        bad("P.append_flips", f"append after pointer damage produced {len(w2.flips) - nfl} flips")
+                    cfl = _commit_flips(w2.flips[nfl:], before)
+                    if len(cfl) != 1:
+                        bad("P.append_flips", f"append after pointer damage produced {len(cfl)} commit flips")
                     else:
-                        fl = w2.flips[-1]
+                        fl = cfl[-1]
                         pn = ir.parse_hint(fl["new"])
                         N = w2.reader.state_of(w2.view(), pn[1], pn[0])
                         probs = model.refine(expect["base"], N, {"appends": [rows]})
